@@ -326,7 +326,7 @@ class Sweep:
             with open(os.path.join(wd, 'conf2'), 'w') as f:
                 f.write(conf_text(spec, ('./w%d/content' % k, './w%d/c2/content' % k)))
 
-    def run(self, binary, base, mutants, cmd, sanitize=False, mode='conf', timeout=60):
+    def run(self, binary, base, mutants, cmd, sanitize=False, mode='conf', timeout=60, want=False):
         """cmd: list like ['status'] ; mode 'conf' | 'noconf' (snapraid -C file).
         returns (list of (mutant, reason, rc, out_tail) for every run that is not a clean refusal, number of runs, rc histogram).
         Note: the tool's os_abort() (rc -6 after an 'Internal inconsistency'/'Invalid ...' diagnostic) is a deliberate stop."""
@@ -334,12 +334,17 @@ class Sweep:
         jobs = [(self.root, k, binary, base, mutants[k::self.n], cmd, env, mode, timeout) for k in range(self.n)]
         bad = []
         classes = {}
+        per = [None] * len(mutants)
         with ProcessPoolExecutor(max_workers=self.n) as ex:
-            for b, cl in ex.map(_sweep_worker, jobs):
+            for k, (b, cl, res) in enumerate(ex.map(_sweep_worker, jobs)):
                 bad += b
                 for key, v in cl.items():
                     classes[key] = classes.get(key, 0) + v
+                for j, r in enumerate(res):
+                    per[k + j * self.n] = r
         bad.sort(key=lambda x: repr(x[0]))
+        if want:
+            return bad, len(mutants), classes, per
         return bad, len(mutants), classes
 
 
@@ -349,6 +354,7 @@ def _sweep_worker(job):
     cpath = os.path.join(wd, 'content')
     bad = []
     classes = {}
+    res = []
     for m in mutants:
         data = apply_mut(base, m)
         with open(cpath, 'wb') as f:
@@ -368,6 +374,7 @@ def _sweep_worker(job):
                 why = 'files left behind by the refused command: %r' % left
         key = 'rc=%s %s' % (rc, diag_class(out) if rc != 0 else 'ACCEPTED')
         classes[key] = classes.get(key, 0) + 1
+        res.append((rc, diag_class(out) if rc != 0 else 'ACCEPTED'))
         if why is not None:
             bad.append((m, why, rc, out[-1500:].decode(errors='replace')))
-    return bad, classes
+    return bad, classes, res
